@@ -318,7 +318,8 @@ def refract(n, nprime, S, r):
     # broadcast the square root to 2D, so that fewer very expensive sqrt ops are done
     # then, in the second term, broadcast cosI for compatability with S and r
     # since it is needed there
-    first_term = np.sqrt(1 - musq * (1 - cosIsq))[:, np.newaxis] * r
+    # the transmitted ray continues through the surface: the root has the sign of cos I
+    first_term = (np.sign(cosI) * np.sqrt(1 - musq * (1 - cosIsq)))[:, np.newaxis] * r
     second_term = mu * (S - cosI[:, np.newaxis] * r)
     return first_term + second_term
 
